@@ -8,6 +8,23 @@ CLAIMED = {
    text="Breadth-first search over all call sequences of a 2-key alphabet up to the stated depth, on 13 configurations (memory/persistent x cache x TTL x v1/v2/v3, memory limit, error probes). Every transition is executed on a fresh real store; results, structural dump and a full read-back are compared with a last-writer-wins reference model; states are deduplicated on a canonical key of the implementation state.",
    note="Alphabet values/keys fixed (1-3 block values, boundary key sizes, explicit timestamps 5/20/2e18/MAX); depth bound per suite in evidence; model (harness/src/model.rs) is the trusted oracle.", ref="DESIGN.md §4.1, §5 C01, Appendix A"),
 }
+CLAIMED.update({
+ "C06": dict(cat="model_checking", technique="complete reachable-state-graph exploration of the real FreeSpaceManager vs a bitmap allocator",
+   text="For device sizes D in {3,6,9(,12..)} data blocks and both initial states (initialised / recovery-empty) the complete reachable state graph of the real allocator is built (every bitmap state), applying every allocate(n) and release(s,c) argument including zero, reserved, out-of-bounds, overlapping and overflowing ones; a bitmap reference decides acceptance and overlap, and the reported totals/run count/largest run are compared with the merged true free set after every call.",
+   note="The 'randomly beyond' clause is not attempted (sampling is outside the technique); fragmentation percentage only range-checked.", ref="DESIGN.md §4.5, §5 C06"),
+ "C11": dict(cat="model_checking", technique="explicit-state BFS with a virtual clock over TTL alphabets (boundary instants) vs an expiry-exact reference model",
+   text="BFS over call sequences including advance-clock symbols that land one ns before / exactly on / one ns after the nearest expiry, the sweeper step, flush and reopen, on memory and persistent v1/v2/v3 stores; every value-reading call and a full read-back are compared with an expiry-exact model after every transition.",
+   note="Sequential part only so far: sweeper-vs-writer interleavings and crash images are added by the SCHED/CRASH engines when listed in evidence.", ref="DESIGN.md §5 C11"),
+ "C12": dict(cat="model_checking", technique="explicit-state BFS over automatic/explicit timestamp mixes; clock bound oracle fed by a timestamp hook",
+   text="BFS over sequences mixing automatic and explicit (past, equal, future, u64::MAX) timestamps over every write kind, including calls that fail while carrying a large explicit timestamp (memory limit, invalid size, CAS mismatch, failing patch), across flush and reopen on v1/v2/v3 devices. Oracle: every automatic timestamp (reported by hook H8) exceeds the key's current and previously accepted timestamps and never runs ahead of max(now, 1+largest timestamp accepted/recovered).",
+   note="Crash-recovery placement is covered through the C02/C03 engine once built.", ref="DESIGN.md §5 C12"),
+ "C13": dict(cat="model_checking", technique="explicit-state BFS; exact byte-accounting oracle after every transition",
+   text="After every transition of the BFS (memory, memory-limit, TTL, persistent incl. reopen) memory_usage() must equal the sum over live keys of (size_of Record + key + value) and len() the live-key count; refused writes must change nothing (state identity).",
+   note="Concurrent part (limit never exceeded under interleavings) is added by the SCHED engine when listed in evidence.", ref="DESIGN.md §5 C13"),
+ "C16": dict(cat="model_checking", technique="explicit-state exploration of the real ClockCache vs an exact CLOCK model + cache-on/off differential BFS",
+   text="(1) BFS over the public and generation-tagged API of the real ClockCache with 2 MB/1 MB watermarks against an exact CLOCK reference (entries, reference bits, hand, byte accounting) plus policy-independent clauses (no hit after remove, generation-exact hits, eviction reaches the low mark and spares referenced entries when unreferenced suffice). (2) Every persistent SEQ path is executed with the cache on and off in lock-step and must give identical results.",
+   note="Reader/writer interleavings on cache-warm keys are added by the SCHED engine when listed in evidence.", ref="DESIGN.md §5 C16"),
+})
 PENDING = {}
 props=[json.loads(l) for l in open('/verif/properties.jsonl')]
 checks=[]; na=[]
